@@ -21,8 +21,20 @@ def src(node):
 def set_parents(tree):
     for parent in ast.walk(tree):
         for child in ast.iter_child_nodes(parent):
+            if isinstance(child, (ast.expr_context, ast.operator, ast.unaryop, ast.boolop, ast.cmpop)):
+                continue        # shared singletons: a parent link on them would tie unrelated subtrees together
             child._parent = parent
     tree._parent = None
+
+
+def clone(x):
+    """Deep copy of an AST node (or list of nodes) that does not follow the `_parent` link out of the copied subtree."""
+    import copy
+    if isinstance(x, list):
+        return [clone(i) for i in x]
+    par = getattr(x, '_parent', None)
+    memo = {id(par): None} if par is not None else {}
+    return copy.deepcopy(x, memo)
 
 
 def parents(node):
@@ -370,6 +382,8 @@ class Repo:
         self.inlined = []
         from . import inline as _inline
         _inline.apply(self)
+        # (alias normalisation, sa/normalize.py, is deliberately NOT applied globally: `x = self.attr` may be a snapshot of shared state —
+        #  C03.a, C08.g depend on the difference; rules resolve aliases where they match access paths: pat.expand_alias)
 
     # -- lookup -----------------------------------------------------------
     def module(self, relpath):
